@@ -436,13 +436,15 @@ Fixpoint ev_iter (st : state) (sc : scope) (f : nat) (x : string) (vs : list val
   end.
 Definition ev_opt (st : state) (sc : scope) (r : option expr) : result :=
   match r with None => (Ok VNil, st) | Some e => ev st sc e end.
-(* do*: initial values in sequence, each stored at once in frame f *)
-Fixpoint ev_inits_seq (st : state) (sc : scope) (f : nat) (bs : list (string * expr * option expr)) : res unit :=
+(* do* (after the repair of setupDo): initial values in sequence, each init form sees the variables before it, each
+   variable gets a scope of its own like let*; the result is the innermost scope *)
+Fixpoint ev_inits_seq (st : state) (sc : scope) (bs : list (string * expr * option expr)) : res scope :=
   match bs with
-  | [] => (Ok tt, st)
+  | [] => (Ok sc, st)
   | (x, e, _) :: bs' =>
-      bind (ev st ((f, List.length (get_frame st f)) :: sc) e) (fun v st1 =>
-      bindo (store_red m v) st1 (fun a => ev_inits_seq (bind_in st1 f x a) sc f bs'))
+      bind (ev st sc e) (fun v st1 =>
+      bindo (store_red m v) st1 (fun a =>
+      let '(f, st2) := alloc st1 [(x, a)] in ev_inits_seq st2 ((f, 1) :: sc) bs'))
   end.
 (* do: all step forms, then all assignments; a variable without step form keeps its value (after the repair) *)
 Fixpoint ev_steps_par (st : state) (sc : scope) (bs : list (string * expr * option expr)) : res (list (string * val)) :=
@@ -454,14 +456,19 @@ Fixpoint ev_steps_par (st : state) (sc : scope) (bs : list (string * expr * opti
       bindo (store_red m v) st1 (fun a =>
       bind (ev_steps_par st1 sc bs') (fun xs st2 => (Ok ((x, a) :: xs), st2))))
   end.
-Fixpoint ev_steps_seq (st : state) (sc : scope) (f : nat) (bs : list (string * expr * option expr)) : res unit :=
-  match bs with
-  | [] => (Ok tt, st)
-  | (x, _, None) :: bs' => ev_steps_seq st sc f bs'
-  | (x, _, Some s) :: bs' =>
+(* do*: each step form, evaluated in the innermost scope, is assigned at once to its variable in the scope where
+   that variable lives (sb.scope.UnsafeLet): fs are the frames of the variables, in the order of the bindings *)
+Fixpoint ev_steps_seq (st : state) (sc : scope) (fs : list nat) (bs : list (string * expr * option expr)) : res unit :=
+  match bs, fs with
+  | [], _ => (Ok tt, st)
+  | _ :: _, [] => (Er EMalformed, st)
+  | (x, _, None) :: bs', _ :: fs' => ev_steps_seq st sc fs' bs'
+  | (x, _, Some s) :: bs', f :: fs' =>
       bind (ev st sc s) (fun v st1 =>
-      bindo (store_red m v) st1 (fun a => ev_steps_seq (bind_in st1 f x a) sc f bs'))
+      bindo (store_red m v) st1 (fun a => ev_steps_seq (bind_in st1 f x a) sc fs' bs'))
   end.
+(* the frames of the n variables of a do* whose innermost scope is sc, outermost variable first *)
+Definition var_frames (n : nat) (sc : scope) : list nat := map fst (rev (firstn n sc)).
 
 Definition evalF (st : state) (sc : scope) (e : expr) : result :=
   match e with
@@ -540,26 +547,28 @@ Definition evalF (st : state) (sc : scope) (e : expr) : result :=
           end)
       | _ => (Er EMalformed, st1)
       end)
+  (* dolist / dotimes (after the repair): the list / count form is evaluated in the enclosing scope, then the scope
+     of the variable is made *)
   | EDolist x l r es =>
-      let '(f, st1) := alloc st [] in
-      bind (ev st1 ((f, 0) :: sc) l) (fun v st2 =>
+      bind (ev st sc l) (fun v st2 =>
       bindo (if is_values v then last_red m v else Ok v) st2 (fun v' =>
       match list_of v' with
       | None => (Er EType, st2)
       | Some vs =>
+          let '(f, st3) := alloc st2 [(x, VNil)] in
           let sc1 := (f, 1) :: sc in
-          bind (ev_iter (bind_in st2 f x VNil) sc1 f x vs es) (fun _ st3 => ev_opt (bind_in st3 f x VNil) sc1 r)
+          bind (ev_iter st3 sc1 f x vs es) (fun _ st4 => ev_opt (bind_in st4 f x VNil) sc1 r)
       end))
   | EDotimes x n r es =>
-      let '(f, st1) := alloc st [] in
-      bind (ev st1 ((f, 0) :: sc) n) (fun v st2 =>
+      bind (ev st sc n) (fun v st2 =>
       bindo (if is_values v then last_red m v else Ok v) st2 (fun v' =>
       match v' with
       | VInt k =>
+          let '(f, st3) := alloc st2 [(x, VNil)] in
           let sc1 := (f, 1) :: sc in
-          bind (ev_iter (bind_in st2 f x VNil) sc1 f x (map (fun i => VInt (Z.of_nat i)) (seq 0 (Z.to_nat k))) es)
+          bind (ev_iter st3 sc1 f x (map (fun i => VInt (Z.of_nat i)) (seq 0 (Z.to_nat k))) es)
                (* the variable is finally bound to the number of iterations: 0 for a negative count (after the repair) *)
-               (fun _ st3 => ev_opt (bind_in st3 f x (VInt (Z.max k 0))) sc1 r)
+               (fun _ st4 => ev_opt (bind_in st4 f x (VInt (Z.max k 0))) sc1 r)
       | _ => (Er EType, st2)
       end))
   | EDo false bs test rs es =>
@@ -568,9 +577,9 @@ Definition evalF (st : state) (sc : scope) (e : expr) : result :=
       let '(f, st2) := alloc st1 fr in
       ev st2 ((f, List.length fr) :: sc) (EDoLoop false bs test rs es))
   | EDo true bs test rs es =>
-      let '(f, st1) := alloc st [] in
-      bind (ev_inits_seq st1 sc f bs) (fun _ st2 =>
-      ev st2 ((f, List.length (get_frame st2 f)) :: sc) (EDoLoop true bs test rs es))
+      let '(f, st1) := alloc st [] in                      (* ns := s.NewScope(): the scope with the block / tagbody flags *)
+      bind (ev_inits_seq st1 ((f, 0) :: sc) bs) (fun sc1 st2 =>
+      ev st2 sc1 (EDoLoop true bs test rs es))
   | EDoLoop star bs test rs es =>
       match sc with
       | [] => (Er EMalformed, st)
@@ -579,7 +588,7 @@ Definition evalF (st : state) (sc : scope) (e : expr) : result :=
           bind (ev_test st sc test) (fun t st1 =>
           if t then ev_seq st1 sc rs VNil
           else bind (ev_seq st1 sc es VNil) (fun _ st2 =>
-               bind (if star then ev_steps_seq st2 sc f bs
+               bind (if star then ev_steps_seq st2 sc (var_frames (List.length bs) sc) bs
                      else bind (ev_steps_par st2 sc bs) (fun xs st3 =>
                           (Ok tt, fold_left (fun s xv => bind_in s f (fst xv) (snd xv)) xs st3)))
                     (fun _ st4 => ev st4 sc (EDoLoop star bs test rs es))))
